@@ -14,6 +14,7 @@ import Jsonapi.Driver.Url
 import Jsonapi.Driver.Alias
 import Jsonapi.Driver.Codec
 import Jsonapi.Driver.Request
+import Jsonapi.Driver.JsonText
 open Jsonapi Jsonapi.Driver
 
 structure DState where
@@ -57,6 +58,9 @@ def stepLine (st : DState) (line : String) : DState × String :=
   | [.list (.atom "alias" :: args)] =>
     let (a', m) := stepAlias st.alias args
     ({ st with alias := a' }, m ++ "\t-\t1")
+  | [.list (.atom "json" :: args)] =>
+    let (m, sp, dom) := stepJson args
+    (st, m ++ "\t" ++ sp ++ "\t" ++ (if dom then "1" else "0"))
   | [.list (.atom "request" :: args)] =>
     let (m, sp, dom) := stepRequest args
     (st, m ++ "\t" ++ sp ++ "\t" ++ (if dom then "1" else "0"))
